@@ -59,6 +59,11 @@ func genAgg(seed uint64, tier string, emphasis int) *plan.Plan {
 	inactiveMs := []int64{150, 500, 3000, 5000, 90000}[r.IntN(5)]
 	pl.Cfg["active_ms"], pl.Cfg["inactive_ms"] = activeMs, inactiveMs
 	pl.Cfg["max_retries"] = int64(r.IntN(4))
+	longRetry := emphasis == 2 && r.IntN(30) == 0
+	if longRetry {
+		// an application that is patient with the other node: hundreds of tries (see the end of the plan)
+		pl.Cfg["max_retries"] = []int64{254, 255, 256, 300}[r.IntN(4)]
+	}
 	pl.Cfg["min_expiry_ms"] = []int64{0, 100}[r.IntN(2)]
 	if r.IntN(3) == 0 {
 		pl.Cfg["corr_odd"] = int64(1 + r.IntN(40))
@@ -76,6 +81,9 @@ func genAgg(seed uint64, tier string, emphasis int) *plan.Plan {
 			cat = []int{catInter, catInterIngDrop}[r.IntN(2)]
 		}
 		if emphasis == 0 && r.IntN(3) == 0 {
+			cat = catInter
+		}
+		if longRetry && k == 0 {
 			cat = catInter
 		}
 		pl.Cfg[fmt.Sprintf("cat%d", k)] = int64(cat)
@@ -99,12 +107,16 @@ func genAgg(seed uint64, tier string, emphasis int) *plan.Plan {
 		n = 8 + r.IntN(60)
 	}
 	tcp := 0
+	forceNode := -1
 	// mkRec makes the next record of key k (commit: the generator's picture of the flow moves on)
 	mkRec := func(k int, commit bool) (plan.Op, bool) {
 		saved := *flows[k]
 		savedTCP := tcp
 		f := flows[k]
 		node := r.IntN(2)
+		if forceNode >= 0 {
+			node = forceNode
+		}
 		if !catNeedsCorrelation(f.cat) {
 			node = nodeSingle
 		}
@@ -325,6 +337,28 @@ func genAgg(seed uint64, tier string, emphasis int) *plan.Plan {
 			pl.Ops = append(pl.Ops, plan.Op{K: "query", A: int64(r.IntN(3))})
 		}
 	}
+	if longRetry {
+		// a flow between two nodes that only one node ever reports is tried again at each of its
+		// deadlines, MaxRetries times, and dropped at the next one - also when MaxRetries is large
+		step := func(d time.Duration) {
+			if d < 0 {
+				d = 0
+			}
+			now = now.Add(d)
+			pl.Ops = append(pl.Ops, plan.Op{K: "adv", A: int64(d)}, plan.Op{K: "scan"})
+			scan(nil)
+		}
+		step(2 * (A + I)) // whatever both nodes reported leaves here
+		if !flows[0].exists {
+			forceNode = 0
+			op, _ := mkRec(0, true)
+			pl.Ops = append(pl.Ops, op)
+		}
+		for j := 0; j < maxRetries+4 && flows[0].exists; j++ {
+			step(deadlines()[0].Sub(now) + time.Duration(1+r.IntN(3))) // strictly past the deadline
+		}
+		forceNode = -1
+	}
 	if r.IntN(5) == 0 {
 		// records through the built-in worker pool, workers interleaved by the scheduler
 		pl.Cfg["pool"] = 1
@@ -348,7 +382,7 @@ func runAgg(pl *plan.Plan, out *plan.Outcome, prop string) {
 		s.run(pl.Ops)
 	})
 	if res := env.Run(); res != "done" && out.Trouble == "" {
-		out.Trouble = "run ended: " + res
+		env.runEnded(res, out)
 	}
 	// keep the clauses that restate this property's sentence
 	prefix := strings.ToLower(prop) + "-"
